@@ -107,11 +107,12 @@ class ScriptedRNG(BaseRNG):
     the first option of positive probability is taken; the alternatives available at every point are
     recorded (ev["alts"]) so that the explorer can enumerate the whole tree."""
 
-    def __init__(self, script=(), qgrid=None):
+    def __init__(self, script=(), qgrid=None, qseq=None):
         super().__init__(0)
         self.script = list(script)
         self.pos = 0
         self.qgrid = qgrid or {}
+        self.qseq = list(qseq) if qseq is not None else None     # values answered to quantile-type calls, in call order
 
     def _next(self, alts):
         if self.pos < len(self.script):
@@ -127,6 +128,10 @@ class ScriptedRNG(BaseRNG):
         return self._next(alts)
 
     def _quant(self, fn, args, default):
+        if self.qseq is not None:
+            v = self.qseq.pop(0) if self.qseq else default
+            self.events.append({"kind": "q", "fn": fn, "args": [float(x) for x in args], "val": float(v), "alts": [v]})
+            return v
         alts = list(self.qgrid.get(fn, [default]))
         v = self._next(alts)
         self.events.append({"kind": "q", "fn": fn, "args": [float(x) for x in args], "val": float(v), "alts": alts})
